@@ -146,6 +146,9 @@ func rejections() []Rejection {
 // freeKey returns key classes whose K and N no stored object holds.
 func freeKeys(w *World) []int {
 	var out []int
+	if w.M.UniqueP {
+		return nil
+	}
 	for k := 0; k < NK; k++ {
 		c := NewRec(0, k)
 		canon(c)
